@@ -9,6 +9,8 @@ pub enum CallKind {
     PreRecycle(u8),
     Recycle,
     PostRecycle(u8),
+    /// `W::from(Object)` at the very end of get()
+    Wrap,
 }
 
 impl CallKind {
@@ -19,6 +21,7 @@ impl CallKind {
             CallKind::PreRecycle(i) => format!("pre_recycle[{}]", i),
             CallKind::Recycle => "recycle".into(),
             CallKind::PostRecycle(i) => format!("post_recycle[{}]", i),
+            CallKind::Wrap => "wrap".into(),
         }
     }
     /// class name without the hook index (for coverage matrices)
@@ -29,6 +32,7 @@ impl CallKind {
             CallKind::PreRecycle(_) => "pre_recycle",
             CallKind::Recycle => "recycle",
             CallKind::PostRecycle(_) => "post_recycle",
+            CallKind::Wrap => "wrap",
         }
     }
 }
